@@ -32,13 +32,13 @@ struct Reg {
   Reg() {
     {
       System s; s.name = "laplace_2d"; s.prop = "C04"; s.dim = 2;
-      s.points = [](int tier) { std::vector<Pt> pts = grid({0, 1}, tier ? 3 : 2, GENERIC_VALS); pts.push_back(Pt(0, 0, 0, 0, true)); return pts; };
+      s.points = [](int tier) { std::vector<Pt> pts = grid({0, 1}, tier ? 3 : 2, GENERIC_VALS); pts.push_back(far_point()); pts.push_back(Pt(0, 0, 0, 0, true)); return pts; };
       s.reference = laplace_ref; s.max_dev_quick = 2; s.max_dev_thorough = 2;
       e1_systems().push_back(s);
     }
     {
       System s; s.name = "burgers_equation"; s.prop = "C04"; s.dim = 2;
-      s.points = [](int tier) { std::vector<Pt> pts = grid({0, 1, 3}, tier ? 3 : 2, GENERIC_VALS); pts.push_back(Pt(0, 0, 0, 0, true)); return pts; };
+      s.points = [](int tier) { std::vector<Pt> pts = grid({0, 1, 3}, tier ? 3 : 2, GENERIC_VALS); pts.push_back(far_point()); pts.push_back(Pt(0, 0, 0, 0, true)); return pts; };
       s.allow = [](const std::string& n, LD v) { return !(n == "L" && v == 0); };
       s.reference = burgers_ref; s.max_dev_quick = 2; s.max_dev_thorough = 3;
       e1_systems().push_back(s);
